@@ -16,3 +16,11 @@ def run(ctx):
             ops_names.case_reduce_many_paths(ctx)
         if i % 4 == 3:
             ops_nf.case_reduce_after_inplace_field(ctx, Subject(ctx, allow_hidden=False))
+        if i % 8 == 5:
+            # as many records in total as the frame has rows, without one record in every row
+            from .. import gen
+            ty = gen.rand_ty(ctx.rng)
+            lens = ctx.rng.choice([[2, 0, 1], [0, 3, 0, 1], [0, 2], [3, 0, 0], [1, 2, 0, 1, 1], [0, 0, 2, 2]])
+            ctx.rng.shuffle(lens)
+            rows = [[[n, [gen.rand_cell(ctx.rng, t) for _ in range(k)]] for n, t in ty] for k in lens]
+            ops_nf.case_reduce_after_inplace_field(ctx, Subject(ctx, content={"ty": ty, "rows": rows}, allow_hidden=False))
